@@ -501,6 +501,9 @@ func (e *Exec) globalObj(g *ssa.Global) *Obj {
 	o := e.newObj(t, e.zero(t))
 	o.Global = true
 	o.Pre = true
+	if f := e.P.Prog.Fset.File(g.Pos()); f != nil && strings.Contains(f.Name(), "zz_verif") {
+		o.Pre = false // harness-owned variable, not repository state
+	}
 	o.Name = g.String()
 	p.globals[g] = o
 	if g.Pkg != nil && !p.initDone[g.Pkg] {
